@@ -197,29 +197,64 @@ func same(got *vals.ListIndex, e exp) bool {
 	return !e.Slice || got.Upper == e.Hi
 }
 
+// A panic of the real conversion code is an answer no reference accepts: the call is reported as a
+// result with the error "panic: ..." (never equal to a reference result, and flagged by itself).
+type panicError struct{ msg string }
+
+func (p panicError) Error() string { return "panic: " + p.msg }
+
+func safeIndex(a, k any) (v any, err error) {
+	defer func() {
+		if r := recover(); r != nil {
+			v, err = nil, panicError{fmt.Sprint(r)}
+		}
+	}()
+	return vals.Index(a, k)
+}
+
+func safeAssoc(a, k, x any) (v any, err error) {
+	defer func() {
+		if r := recover(); r != nil {
+			v, err = nil, panicError{fmt.Sprint(r)}
+		}
+	}()
+	return vals.Assoc(a, k, x)
+}
+
+func safeConvert(raw any, n int) (v *vals.ListIndex, err error) {
+	defer func() {
+		if r := recover(); r != nil {
+			v, err = nil, panicError{fmt.Sprint(r)}
+		}
+	}()
+	return vals.ConvertListIndex(raw, n)
+}
+
+func isPanic(err error) bool { _, ok := err.(panicError); return ok }
+
 func replayList(c *lib.Ctx, ev *eval.Evaler, lc listCase) {
 	key := fmt.Sprintf("list:n=%d:%s", lc.N, lc.X.render())
 	c.Distinct(key)
 	l := elv.MakeList(lc.N)
 	for _, raw := range lc.X.raws() {
 		c.AddEvals(1)
-		got, err := vals.ConvertListIndex(raw, lc.N)
+		got, err := safeConvert(raw, lc.N)
 		if err != nil {
 			got = nil
 		}
-		if !same(got, lc.Exp) {
+		if isPanic(err) || !same(got, lc.Exp) {
 			c.Reject(key, fmt.Sprintf("ConvertListIndex(%#v, %d) = %+v, %v; reference %+v", raw, lc.N, got, err, lc.Exp), lc)
 			return
 		}
 		// vals.Index
-		v, err := vals.Index(l, raw)
-		if !checkListResult(v, err, lc) {
+		v, err := safeIndex(l, raw)
+		if isPanic(err) || !checkListResult(v, err, lc) {
 			c.Reject(key, fmt.Sprintf("vals.Index(list %d, %#v) = %s, %v; reference %+v", lc.N, raw, vals.ReprPlain(v), err, lc.Exp), lc)
 			return
 		}
 		// vals.Assoc
-		a, err := vals.Assoc(l, raw, "X")
-		if !checkAssoc(a, err, lc) {
+		a, err := safeAssoc(l, raw, "X")
+		if isPanic(err) || !checkAssoc(a, err, lc) {
 			c.Reject(key, fmt.Sprintf("vals.Assoc(list %d, %#v) = %s, %v; reference %+v", lc.N, raw, vals.ReprPlain(a), err, lc.Exp), lc)
 			return
 		}
@@ -319,8 +354,8 @@ func replayStr(c *lib.Ctx, ev *eval.Evaler, sc strCase) {
 	}
 	for _, raw := range sc.X.raws() {
 		c.AddEvals(1)
-		v, err := vals.Index(s, raw)
-		if !check(v, err) {
+		v, err := safeIndex(s, raw)
+		if isPanic(err) || !check(v, err) {
 			c.Reject(key, fmt.Sprintf("vals.Index(%q, %#v) = %#v, %v; reference %+v", s, raw, v, err, sc.Exp), sc)
 			return
 		}
@@ -385,9 +420,14 @@ func classes(c *lib.Ctx, ev *eval.Evaler, dir string) error {
 		s := strings.Repeat("x", n)
 		for _, rc := range raws {
 			c.AddEvals(3)
-			_, e1 := vals.Index(l, rc.raw)
+			_, e1 := safeIndex(l, rc.raw)
 			cs = append(cs, classCase{rc.cls, n, rc.txt, "vals.Index(list)", e1 == nil})
-			_, e2 := vals.Index(s, rc.raw)
+			_, e2 := safeIndex(s, rc.raw)
+			for _, e := range []error{e1, e2} {
+				if isPanic(e) {
+					c.Reject("class:"+rc.cls+":panic", fmt.Sprintf("index %s on length %d: %v", rc.txt, n, e), rc.txt)
+				}
+			}
 			cs = append(cs, classCase{rc.cls, n, rc.txt, "vals.Index(string)", e2 == nil})
 			o := elv.Run(ev, fmt.Sprintf("var l = %s; put $l[%s]", vals.ReprPlain(l), rc.txt))
 			if o.Panic != "" {
